@@ -191,3 +191,22 @@ def slug(s, n=60):
 
 def finite(x):
     return x is not None and isinstance(x, (int, float)) and math.isfinite(x)
+
+
+def scribble(obj):
+    """The caller's buffer is reused: overwrite, in place, a list / array that has just been handed to kafe2.  An API call declares the *values* it was given;
+    what the caller does with its own object afterwards must not reach into kafe2 (aliasing of mutable arguments).  Returns nothing."""
+    try:
+        if isinstance(obj, np.ndarray):
+            if obj.flags.writeable and obj.size:
+                if np.issubdtype(obj.dtype, np.floating):
+                    obj[...] = obj * -3.0 + 7.25
+                else:
+                    obj[...] = obj * 3 + 7
+        elif isinstance(obj, list):
+            n = len(obj)
+            obj[:] = [(-3.0 * v + 7.25) if isinstance(v, (int, float)) else v for v in obj]
+            obj.extend([123456.0] * 2)
+            assert len(obj) == n + 2
+    except (TypeError, ValueError):
+        pass
